@@ -442,6 +442,8 @@ func mixProfile(profile string, g *gen) (mixW, bool) {
 			rangeKeys: g.r.IntN(2) == 0, iterOpsPerStep: 3}, true
 	case "files": // C39
 		return mixW{write: 45, ingest: 5, ingestExcise: 2, excise: 3, flush: 9, compact: 9, scan: 1, reopen: 5, crash: 2, iter: 16, snap: 4, efos: 2, wait: 2, rangeKeys: g.r.IntN(2) == 0, longLived: true, iterOpsPerStep: 2}, true
+	case "corrupt": // C27
+		return mixW{write: 60, ingest: 5, flush: 12, compact: 8, scan: 2, wait: 1, rangeKeys: g.r.IntN(2) == 0}, true
 	case "valsep": // C44
 		return mixW{write: 55, ingest: 4, flush: 10, compact: 10, snap: 8, iter: 8, scan: 3, reopen: 2, wait: 2, longLived: true, iterOpsPerStep: 4}, true
 	}
@@ -579,6 +581,15 @@ func (e *dbEngine) Generate(profile string, seed uint64, tier string) (*Plan, er
 			g.cfg.ValueSepMin = pick(&g.r, []int{1, 8, 32, 100})
 			g.cfg.FMV = 0
 		}
+		if profile == "corrupt" {
+			// "written in a current format"
+			g.cfg.FMV = 0
+			if g.r.IntN(3) != 0 {
+				g.cfg.ValueSep = true
+				g.cfg.ValueSepMin = pick(&g.r, []int{1, 8, 32, 100})
+			}
+			nops = 20 + g.r.IntN(80)
+		}
 		if profile == "efos" || profile == "checkpoint" || profile == "scaninternal" {
 			g.cfg.FMV = 0
 		}
@@ -600,6 +611,13 @@ func (e *dbEngine) Generate(profile string, seed uint64, tier string) (*Plan, er
 			g.disabled["singledel"] = true
 		}
 		g.genMixed(nops, w)
+		if profile == "corrupt" {
+			n := 24
+			if tier == "thorough" {
+				n = 120
+			}
+			g.add(DBOp{K: "rot", N: n})
+		}
 		if profile == "iofault" {
 			faults = g.genFaults()
 			// the faults stop; then a clean reopen, a full read, a crash that
